@@ -10,6 +10,7 @@ import Oracle.C15
 import Oracle.C11b
 import Oracle.C19
 import Oracle.C04
+import Oracle.C03
 open Oracle
 
 def dispatch (op : String) (args res : List String) : String :=
@@ -18,7 +19,7 @@ def dispatch (op : String) (args res : List String) : String :=
   else
     let handlers : List (String → List String → List String → Option String) :=
       [Oracle.C01.handle, Oracle.C02.handle, Oracle.C11.handle, Oracle.C06a.handle, Oracle.C09.handle,
-       Oracle.C13.handle, Oracle.C14.handle, Oracle.C15.handle, Oracle.C11b.handle, Oracle.C19.handle, Oracle.C04.handle]
+       Oracle.C13.handle, Oracle.C14.handle, Oracle.C15.handle, Oracle.C11b.handle, Oracle.C19.handle, Oracle.C04.handle, Oracle.C03.handle]
     match handlers.findSome? (fun h => h op args res) with
     | some v => v
     | none => "bad unknown-op-or-args " ++ op
